@@ -122,7 +122,8 @@ def run_shared(cfg, seed, policy="random", script=(), p_switch=0.3, census=False
     jump_info = []
 
     def on_jump(s, task):
-        jump_info.append((s.now, task.deadline, {t.name: t.tag for t in s.tasks if t.state == "BLOCKED"},
+        jump_info.append((s.now, task.deadline, {t.name: (t.tag if not norecheck.get(t.name) else ("woken-without-recheck", t.tag[0]))
+                                                 for t in s.tasks if t.state == "BLOCKED"},
                           [t.name for t in s.tasks if t.state == "BLOCKED" and t.tag == ("poll", "A")]))
         sleepers = [(t.name, t.tag) for t in s.tasks if t.state == "BLOCKED" and t.tag and t.tag[0] == "cond-wait"]
         pollers = [t.name for t in s.tasks if t.state == "BLOCKED" and t.tag == ("poll", "A")]
@@ -132,11 +133,28 @@ def run_shared(cfg, seed, policy="random", script=(), p_switch=0.3, census=False
     keep = []
     half_published = []
 
+    # per client thread: did it, since it last evaluated the loop condition of AsyncResult.wait(), already sleep on the
+    # receive condition once? A waiter that then goes on to sleep again or to poll did not look at its result after being
+    # woken - unlike the listed C14 mechanism, where the woken waiter looks, finds the reply not dispatched yet and re-enters
+    slept_since_check = {}
+    norecheck = {}
+
     def invariant(s, task, tag):
         # at every yield point: a result that reports ready must already carry its value / exception flag
         for ar in keep:
             if ar._is_ready and ar._is_exc is None:
                 half_published.append(tag)
+        name = task.name
+        if name[:1] == "c" and type(tag) is tuple and tag:
+            if tag[0] == "L" and tag[1] == "wait":
+                slept_since_check[name] = False
+                norecheck.pop(name, None)
+            elif tag[0] == "cond-wait" and tag[1] == "A.recv_event":
+                if slept_since_check.get(name):
+                    norecheck[name] = True
+                slept_since_check[name] = True
+            elif tag == ("poll", "A") and slept_since_check.get(name):
+                norecheck[name] = True
     sched.on_yield = invariant
 
     def client(ci):
